@@ -1129,16 +1129,20 @@ def rand_case(rng, findings):
     return {'mods': mods, 'ops': gen_ops(rng, mods, rng.randint(4, 14))}
 
 
-def exhaustive_cases():
-    """every combination of module export x class export x configured export x kind x predefined/custom name,
-    probed with every request kind on every candidate name"""
+def exhaustive_cases(full=False):
+    """every combination of module export x class export x configured export x kind x predefined/custom name
+    (full: x readonly x constant none/class/configuration), probed with every request kind on every candidate name"""
     fl = {'t': 'float', 'min': F(0.0), 'max': F(10.0)}
-    for mexp, exp, cfg, kind, predefined in itertools.product(
-            [True, False], [True, False, '', 'cust'], [None, True, False, 'ren'], ['p', 'c'], [False, True]):
+    variants = [(ro, c) for ro in (False, True) for c in (None, 'cls', 'cfg')] if full else [(False, None)]
+    for mexp, exp, cfg, kind, predefined, (ro, const) in itertools.product(
+            [True, False], [True, False, '', 'cust'], [None, True, False, 'ren'], ['p', 'c'], [False, True], variants):
+        if kind == 'c' and (ro, const) != (False, None):
+            continue
         attr = ('ramp' if kind == 'p' else 'reset') if predefined else 'foo'
         if kind == 'p':
-            a = {'attr': attr, 'kind': 'p', 'd': fl, 'unit': '', 'group': '', 'vis': 1, 'readonly': False, 'const_cls': None,
-                 'const_cfg': None, 'default': G.tag(1.0), 'export': exp}
+            a = {'attr': attr, 'kind': 'p', 'd': fl, 'unit': '', 'group': '', 'vis': 1, 'readonly': ro,
+                 'const_cls': G.tag(2.5) if const == 'cls' else None, 'const_cfg': G.tag(2.5) if const == 'cfg' else None,
+                 'default': G.tag(1.0), 'export': exp}
         else:
             a = {'attr': attr, 'kind': 'c', 'group': '', 'vis': 1, 'arg': None, 'res': None, 'ret': ['none'], 'export': exp}
         if cfg is not None:
@@ -1159,8 +1163,8 @@ def exhaustive_cases():
 
 def gen_cases(seed, tier):
     rng = random.Random(seed * 1000003 + 6)
-    n = {'quick': 2000, 'thorough': 40000, 'search': 40000}[tier]
-    cases = list(exhaustive_cases())
+    n = {'quick': 2000, 'thorough': 20000, 'search': 20000}[tier]
+    cases = list(exhaustive_cases(full=(tier != 'quick')))
     for i in range(n):
         cases.append(rand_case(rng, findings=(i % 4 == 0)))
     return cases
